@@ -32,7 +32,8 @@ pub use templates::{template_name, N_TEMPLATES};
 pub struct PatternCase {
     /// template selector (mapped monotonically onto `0..N_TEMPLATES`)
     pub template: u8,
-    /// knob mutations: (knob selector, value 1..=255); absent knob = canonical
+    /// knob mutations: (knob selector, value 1..=255); absent knob = canonical.
+    /// `pattern_case()` generates at most one, `pattern_case_multi()` up to three.
     pub muts: Vec<(u8, u8)>,
     /// rank selector of the primary input
     pub rank: u8,
@@ -51,14 +52,35 @@ pub struct PatternCase {
     pub data_seed: u16,
 }
 
+/// Cases with at most ONE mutated knob (35 % canonical, 65 % one knob). A violation is then attributable to
+/// exactly one perturbation, and the tag `@pattern=<T>;knobs=<knob>` that c01.rs appends to signatures ranges over a
+/// small, enumerable set (known findings can be exact).
 pub fn pattern_case() -> impl Strategy<Value = PatternCase> {
+    pattern_case_with(1)
+}
+
+/// Exploratory variant: 0-3 mutated knobs per case (weights 3:4:2:1). Tags then list several knobs.
+pub fn pattern_case_multi() -> impl Strategy<Value = PatternCase> {
+    pattern_case_with(3)
+}
+
+fn pattern_case_with(max_muts: usize) -> impl Strategy<Value = PatternCase> {
     let mutation = (any::<u8>(), 1u8..=255);
-    let muts = prop_oneof![
-        3 => Just(Vec::new()),
-        4 => proptest::collection::vec(mutation.clone(), 1..=1),
-        2 => proptest::collection::vec(mutation.clone(), 2..=2),
-        1 => proptest::collection::vec(mutation, 3..=3),
-    ];
+    let muts = if max_muts <= 1 {
+        prop_oneof![
+            35 => Just(Vec::new()),
+            65 => proptest::collection::vec(mutation, 1..=1),
+        ]
+        .boxed()
+    } else {
+        prop_oneof![
+            3 => Just(Vec::new()),
+            4 => proptest::collection::vec(mutation.clone(), 1..=1),
+            2 => proptest::collection::vec(mutation.clone(), 2..=2),
+            1 => proptest::collection::vec(mutation, 3..=3),
+        ]
+        .boxed()
+    };
     let leak = prop_oneof![4 => Just(0u8), 1 => 1u8..=255];
     (
         any::<u8>(),
@@ -94,8 +116,8 @@ pub fn pattern_graph_case() -> impl Strategy<Value = vc_onnxgen::grammar::GraphC
 }
 
 /// Same as `pattern_case` but restricted to one template (development aid).
-pub fn pattern_case_for(template_index: usize) -> impl Strategy<Value = PatternCase> {
-    pattern_case().prop_map(move |mut c| {
+pub fn pattern_case_for(template_index: usize, multi: bool) -> impl Strategy<Value = PatternCase> {
+    pattern_case_with(if multi { 3 } else { 1 }).prop_map(move |mut c| {
         c.template = templates::selector_for(template_index);
         c
     })
@@ -608,7 +630,8 @@ impl<'a> G<'a> {
                     // vector constant along the last axis (if any)
                     let s = self.shape(x);
                     let cs: Vec<usize> = s.last().map(|d| vec![*d]).unwrap_or_default();
-                    let c = self.cf_var(&cs, 0x51 + sel as u32, -1.0, 9);
+                    // never 0: `x - 0` would be removed by IdentityFusion and blur the op_diff part of signatures
+                    let c = self.cf_var(&cs, 0x51 + sel as u32, 0.25, 8);
                     self.bin("Sub", x, c)
                 }
                 _ => self.bin("Max", x, x),
